@@ -416,7 +416,41 @@ fn monitor(ctx: &Ctx, cj: &dyn Fn() -> Value) {
             ctx.violation(name, "monitor/identical-streams-in-fresh-threads", String::new(), cj());
         }
     }
+    // two fresh processes must not produce the same stream either (a process-wide generator with a fixed seed
+    // passes the thread comparison above)
+    let run = || -> Option<String> {
+        let exe = std::env::current_exe().ok()?;
+        let out = std::process::Command::new(exe).args(["tool", "draw"]).output().ok()?;
+        if !out.status.success() {
+            return None;
+        }
+        Some(String::from_utf8_lossy(&out.stdout).to_string())
+    };
+    match (run(), run()) {
+        (Some(a), Some(b)) => {
+            let (la, lb): (Vec<&str>, Vec<&str>) = (a.lines().collect(), b.lines().collect());
+            if la.len() != 2 || lb.len() != 2 {
+                ctx.machinery_error(format!("C14 monitor: child printed {} / {} lines", la.len(), lb.len()));
+            } else {
+                for (i, name) in ["sm2.random_u256", "sm9.sm9_random_u256"].iter().enumerate() {
+                    if la[i] == lb[i] {
+                        ctx.violation(name, "monitor/identical-streams-in-fresh-processes", la[i].to_string(), cj());
+                    }
+                }
+            }
+        }
+        _ => ctx.machinery_error("C14 monitor: could not run the child process"),
+    }
     ctx.outcome("monitor-done");
+}
+
+/// `gmverif tool draw`: the first four scalars of each sampler with the seam off, one sampler per line
+pub fn print_draws() {
+    let a: Vec<String> = (0..4).map(|_| hex::encode(refmodels::util::to32(&from_limbs(&gm_sm2::verif::random_u256())))).collect();
+    println!("{}", a.join(" "));
+    let range = to_limbs(&(sm9::params().n.clone() - 1u32));
+    let b: Vec<String> = (0..4).map(|_| hex::encode(refmodels::util::to32(&from_limbs(&gm_sm9::u256::sm9_random_u256(&range))))).collect();
+    println!("{}", b.join(" "));
 }
 
 pub fn replay(ctx: &Arc<Ctx>, v: &Value) {
@@ -521,7 +555,7 @@ pub fn run(ctx: &Arc<Ctx>) {
     // ---- monitor
     let before = ctx.violations().len();
     eval(ctx, &Case::Monitor);
-    ctx.cov("monitor", json!({"kind": "statistical monitor, not model checking", "draws_per_sampler": 4096, "checks": ["no duplicates", "in range", "bits 0..=250 within 8 sigma", "fresh threads give different streams"], "violations": ctx.violations().len() - before}));
+    ctx.cov("monitor", json!({"kind": "statistical monitor, not model checking", "draws_per_sampler": 4096, "checks": ["no duplicates", "in range", "bits 0..=250 within 8 sigma", "fresh threads give different streams", "fresh processes give different streams"], "violations": ctx.violations().len() - before}));
     ctx.assume("'every bit position is unbiased' and 'seeded from the operating system' are statements about a distribution; bounded enumeration cannot decide them. They are only monitored (coverage.structural.monitor).");
     let _ = gdbg::<u8>;
 }
